@@ -17,6 +17,8 @@ import (
 var (
 	repoRoot  = "/repo"
 	verifRoot = "/verif"
+	workSuffix = ""
+	currentProp = ""
 )
 
 func init() {
@@ -134,14 +136,28 @@ func cmdCheck(args []string) int {
 	start := time.Now()
 	partialRun = *only != "" || os.Getenv("VERIF_SELFTEST") != ""
 	curProp = prop
-	timeoutS := 30
+	timeoutS := 60
 	if *tier == "thorough" {
-		timeoutS = 120
+		timeoutS = 180
 	}
-	workDir := filepath.Join(verifRoot, "work", prop)
+	// runs against a scratch copy of the tree (self-test, seeded changes) may overlap with each other and with a run
+	// on /repo: they get work directories of their own, removed at the end
+	if os.Getenv("VERIF_SELFTEST") != "" || os.Getenv("VERIF_REPO") != "" {
+		workSuffix = fmt.Sprintf(".%d", os.Getpid())
+	}
+	currentProp = prop
+	workDir := filepath.Join(verifRoot, "work", prop+workSuffix)
 	os.RemoveAll(workDir)
 	os.MkdirAll(workDir, 0o755)
+	if workSuffix != "" && !*keep {
+		defer os.RemoveAll(workDir)
+		defer os.RemoveAll(replayWorkDir())
+	}
 	replayDir := filepath.Join(verifRoot, "replays")
+	if os.Getenv("VERIF_SELFTEST") != "" {
+		// what a self-test run finds in its scratch copy is not a finding about /repo
+		replayDir = filepath.Join(verifRoot, "work", "replays_selftest")
+	}
 	os.MkdirAll(replayDir, 0o755)
 
 	fail := func(msg string) int {
@@ -418,7 +434,7 @@ func cmdCheck(args []string) int {
 					if phase == 2 {
 						return
 					}
-					to = 4
+					to = 10
 				}
 				if phase == 1 && to > 3 && !p.job.expectSat {
 					to = 3
@@ -683,3 +699,7 @@ func writeEvidence(prop, tier string, seed int, counts *[2]int, samples []any, w
 	}
 	writeJSON(filepath.Join(verifRoot, "evidence", prop+".json"), ev)
 }
+
+
+// replayWorkDir: where replay harnesses and model queries are written (per process for scratch-copy runs).
+func replayWorkDir() string { return filepath.Join(verifRoot, "work", "replay_"+currentProp+workSuffix) }
